@@ -32,9 +32,10 @@ type replayStats struct {
 }
 
 type lineWriter struct {
-	w    *bufio.Writer
-	seen map[string]bool
-	n    int
+	w       *bufio.Writer
+	seen    map[string]bool
+	n       int
+	keepAll bool // hash includes the source: no line is dropped
 }
 
 func newLineWriter(path string) (*lineWriter, *os.File, error) {
@@ -47,7 +48,9 @@ func newLineWriter(path string) (*lineWriter, *os.File, error) {
 
 // write emits `hash \t json`; lines whose content (apart from src) was already written are dropped
 func (lw *lineWriter) write(src string, v any, setSrc func(string)) {
-	setSrc("")
+	if !lw.keepAll {
+		setSrc("")
+	}
 	bs := mustJSON(v)
 	h := sha1.Sum(bs)
 	hs := hex.EncodeToString(h[:10])
